@@ -25,7 +25,7 @@ RULE = ("four kinds of history: (overlap) the C11 case streams, with the default
         "that fail to parse (bad position, bad enum member, short line), calls continuing after each failure; (writer) 1-6 scheme-less records on a recording handle observed after every write call, "
         "headers declaring no order / Coordinate / BarcodesAndCoordinate / Unsorted / Unknown, sorting not asked for "
         "(assume_sorted=True passed or left at its default) / asked for / asked for but undecidable, += and .write(), "
-        "records that fail Strict validation; (sorter) capacities 0-6, 0-20 adds, temp-dir "
+        "records that fail Strict validation; (sorter) capacities 0-6, 0-20 adds (and runs past 256 spill files at capacity 1-3), temp-dir "
         "listing and spill-file record counts after every add. Oracle-only histories (outside the model): a handle that "
         "raises BlockingIOError at one write call, one failing spill (mkstemp raises once) after which the caller keeps "
         "adding, overlap inputs containing records without start/end; a long-sparse overlap case; maflib.util.PeekableIterator used directly (peek, next(p), p.next(), iter(p)). Overlap inputs "
@@ -271,9 +271,14 @@ def run_sorter(case):
         def decode(self, data, start, length):
             return int(bytes(data[start:start + length]).decode("utf-8"))
 
+    seen = {}
+
     def chunk_sizes(d):
         out = []
         for f in os.listdir(d):
+            if f in seen:
+                out.append(seen[f])
+                continue
             n = 0
             with gzip.open(os.path.join(d, f), "rb") as fh:
                 while True:
@@ -282,6 +287,7 @@ def run_sorter(case):
                         break
                     fh.read(struct.unpack("i", hd)[0])
                     n += 1
+            seen[f] = n
             out.append(n)
         return sorted(out)
 
@@ -400,7 +406,7 @@ def from_model(case, sx):
     if case.get("nomodel"):
         return {"nomodel": True}
     if w == "overlap":
-        return K.d_overlap(sx)
+        return K.from_model(case["case"], sx)
     if w == "reader":
         init = sx[0]
         if init[0] == 1:
@@ -687,6 +693,12 @@ def gen_sorter(rng):
     return c
 
 
+def gen_sorter_many_files(rng):
+    """more than 256 spill files: the capacity asked for still bounds what is held"""
+    cap = rng.choice([1, 1, 2, 3])
+    return {"what": "sorter", "cap": cap, "n": 256 * cap + cap + rng.randint(1, 3 * cap + 2)}
+
+
 def gen_writer_fault(rng):
     """an unsorted writer on a handle that finds the pipe full at one write call"""
     c = gen_writer(rng)
@@ -704,6 +716,10 @@ def gen_overlap_noposition(rng):
     c = K.gen_valid(rng, 0, 0)
     c["rectype"] = rng.choice(["loc", "maf"])
     recs = [r for inp in c["inputs"] for r in inp]
+    if c["rectype"] == "maf":
+        for r in recs:
+            r[K.TUM] = r[K.TUM] or ""
+            r[K.NOR] = r[K.NOR] or ""
     if not recs:
         return gen_overlap(rng)
     for r in rng.sample(recs, min(len(recs), rng.choice([1, 1, 2, 3]))):
@@ -742,6 +758,8 @@ def generate(rng, n):
             out.append(gen_writer_fault(rng))
         elif k % 24 == 15:
             out.append(gen_peekable(rng))
+        elif k % 1200 == 23:
+            out.append(gen_sorter_many_files(rng))
         elif r < 5:
             out.append(gen_overlap(rng))
         elif r < 8:
@@ -769,6 +787,7 @@ def corpus():
          "recs": [["A\tB", "1\t2", True], ["A\tB", "3\t4", True]]},
         {"what": "sorter", "cap": 3, "n": 10},
         {"what": "sorter", "cap": 2, "n": 5},
+        {"what": "sorter", "cap": 1, "n": 259},
         {"what": "peekable", "items": [0, 4, 0], "ops": ["peek", "iter", "next", "dotnext", "peek", "dotnext", "next", "peek"], "nomodel": True},
         {"what": "sorter", "cap": 3, "n": 8, "fail_spill": 1, "nomodel": True},
         {"what": "writer", "mode": 0, "fault": 3, "nomodel": True, "recs": [["A\tB", "%d\t%d" % (i, i), True] for i in range(5)]},
